@@ -102,6 +102,16 @@ def builders() -> List[Tuple[str, Callable[[Any, Any], Any]]]:
         ("OptionalUnion", lambda a, b, u="": Union[a, b, None] if a is not b else Optional[a]),
         ("td_nested", lambda a, b, u="": atd({"fa" + u: atd({"fb" + u: b})})),
         ("td_list_field", lambda a, b, u="": atd({"fa" + u: List[a], "fb" + u: Optional[b] if b is not NoneT else b})),
+        # generics the renderer does not descend into (rendered through repr): their arguments are typing constructs again
+        ("Callable_args", lambda a, b, u="": Callable[[List[a]], opt(b)]),
+        ("Mapping_List", lambda a, b, u="": typing.Mapping[str, List[a]]),
+        ("Sequence_Optional", lambda a, b, u="": typing.Sequence[opt(a)]),
+        ("Awaitable_Dict", lambda a, b, u="": typing.Awaitable[Dict[str, a]]),
+        # a TypedDict whose FIELD holds TypedDicts below a container (one level down inside another generated class)
+        ("td_field_List_td", lambda a, b, u="": atd({"fa" + u: List[atd({"fb" + u: b})]})),
+        ("td_field_Dict_td", lambda a, b, u="": atd({"fa" + u: Dict[str, atd({"fb" + u: b})], "fc" + u: a})),
+        ("td_field_Tuple_td", lambda a, b, u="": atd({"fa" + u: Tuple[a, atd({"fb" + u: b})]})),
+        ("td_field_Optional_td", lambda a, b, u="": atd({}, {"fa" + u: Optional[atd({"fb" + u: b})]})),
     ]
 
 
